@@ -301,8 +301,19 @@ impl Ctx {
         }
         for (sig, (n, d)) in self.stats.survey.lock().unwrap().iter() {
             println!("SURVEY x{} {}", n, sig);
-            for l in d.lines().take(30) {
-                println!("    {}", l);
+            let lines: Vec<&str> = d.lines().collect();
+            if lines.len() <= 34 {
+                for l in &lines {
+                    println!("    {}", l);
+                }
+            } else {
+                for l in &lines[..4] {
+                    println!("    {}", l);
+                }
+                println!("    ...");
+                for l in &lines[lines.len() - 28..] {
+                    println!("    {}", l);
+                }
             }
         }
         let nviol = self.violations.lock().unwrap().len();
